@@ -25,13 +25,7 @@ claim('C05',
       'protocol conformance of user closures (rich_map_custom, foreign operators); numeric counters of Start are checked '
       'structurally (initialised from the replica count, decremented on the matching edge, compared with 0), not evaluated.')
 
-NOT_APPLICABLE = {
-    'C12': 'the property is slot arithmetic over runtime quantities (count/slide+1, ceil(size/slide) open slots, emission at '
-           'count == size) for all N, S and sequence lengths: no sound static argument in reach; its structural clauses (one '
-           'manager per key, nothing carried across iterations) are decided under C05.R4 / C13.R3 and not counted as deciding C12',
-    'C14': 'quantifies over wall-clock instants returned by Instant::now(): which slot an element lands in is not a property of '
-           'the code\'s shape; the flush-at-end / no-carry-over clauses are decided under C05.R4',
-}
+NOT_APPLICABLE = {}
 
 claim('C04',
       'Terminate accounting that termination depends on: every operator returns Terminate exactly when it received it and never asks '
@@ -120,3 +114,18 @@ claim('C08',
       'join shipping (hash/hash with keyer1/keyer2 through the same group_by constructor, forward/broadcast, forward/forward for keyed '
       'joins); protocol and state-reset rules on the five join operators (C05).',
       'the relational result for arbitrary multisets and arrival orders; outer-join bookkeeping is only covered by the state/protocol rules.')
+
+claim('C12',
+      'structural clauses only: a count window is emitted exactly when the *oldest* slot\'s count equals `size` (comparison in the order '
+      'domain), slots are handled oldest-first; at the end of an iteration nothing is emitted in exact mode (the flush is guarded by '
+      '!exact), the non-exact flush takes the oldest slot filtered by count > 0, and all slots are dropped unconditionally; one manager '
+      'per key and no slot across iterations (C13.R3 / C05.R4).',
+      'the slot arithmetic itself (count / slide + 1 updates, ceil(size/slide) open slots, which elements land in which group) for all N, S '
+      'and sequence lengths: integer reasoning over runtime quantities, no sound static argument in reach.')
+claim('C14',
+      'structural clauses only: processing-time assignment uses the half-open interval (skip iff end <= now, take iff start <= now), a slot '
+      'is released only when end < now (it can no longer be assigned), slots are created with end = start + size, starts `slide` apart; '
+      'all pending windows are drained at the end of the iteration and only active slots produce results; a session element is added to '
+      'exactly one slot, unconditionally, and results are produced by taking the slot; one manager per key, nothing kept across iterations.',
+      'everything that depends on the wall-clock instants returned by Instant::now(): which slot an element lands in, coverage counts for '
+      'sliding windows.')
